@@ -24,16 +24,18 @@ ENGINES = [
     dict(name="env", path="engine/env.hh", serves=["C14", "C15"], kind="deviation-bounded enumeration of environment answers behind link-time interposed libc calls"),
 ]
 
-PROPS = {
-    "C19": P(
-        harness=["harness/C19.cc"], srcs=["UnitTest.cc", "Strings.cc", "Filesystem.cc", "Process.cc", "Time.cc", "Encoding.cc"],
-        rule="complete enumeration of (relation, operand pair) over six boundary sets and of the 10x12 (expected type, behaviour) matrix; every case is distinct and non-trivial (it decides throw/no-throw)",
-        bounds={"quick": "finite space, enumerated completely", "thorough": "finite space, enumerated completely"},
-        explanation="E-ENUM over the real macros/templates; oracle = the C++ relation itself and std::is_base_of",
-        assumptions=["operands are int, int64, uint64, std::string, double (no NaN), bool"],
-        engine="E-ENUM",
-        technique="exhaustive enumeration of the finite (relation, operands) and (expected type, behaviour) spaces on the real helpers",
-        level_text="Every relation macro x every ordered operand pair of six boundary sets and the full 10x12 matrix of expect_raises<E> x callee behaviour are executed on the real helpers; the space is finite and enumerated completely, so within it the verdict is a coverage statement, not a sample.",
-        level_note="Trusted: the C++ comparison operators and std::is_base_of used as the oracle; operand types limited to int/int64/uint64/string/double/bool.",
-    ),
-}
+PROPS = {}
+
+
+def _load():
+    import glob, importlib.util, os
+    here = os.path.dirname(os.path.abspath(__file__))
+    for f in sorted(glob.glob(os.path.join(here, "props_d", "C*.py"))):
+        pid = os.path.basename(f)[:-3]
+        spec = importlib.util.spec_from_file_location("props_d_" + pid, f)
+        m = importlib.util.module_from_spec(spec)
+        spec.loader.exec_module(m)
+        PROPS[pid] = m.CFG
+
+
+_load()
